@@ -115,6 +115,18 @@ Theorem C18_ibc_error_ack :
 Proof. exact recv_error_ack. Qed.
 Print Assumptions C18_ibc_error_ack.
 
+(* the receive transaction as a whole: a panic below the application callback (nothing recovers from it: C18_source_shape,
+   fact ok_no_recover) fails the transaction and keeps nothing; otherwise the outcome is a success acknowledgement or an
+   error acknowledgement with exactly the designated state *)
+Theorem C18_ibc_recv_transaction_outcomes :
+  forall S parse_ok transfer_recv hook tao write_ack pre,
+  recv_tx S parse_ok transfer_recv hook tao write_ack true pre = (pre, 3) /\
+  (let (s, cls) := recv_tx S parse_ok transfer_recv hook tao write_ack false pre in
+   (cls = 1 \/ cls = 2) /\ (cls = 2 -> s = recv_designated S tao write_ack pre) /\
+   (cls = 1 <-> snd (mw_on_recv S parse_ok transfer_recv hook (tao pre)) = true)).
+Proof. exact recv_tx_outcomes. Qed.
+Print Assumptions C18_ibc_recv_transaction_outcomes.
+
 (* … and these are all the ways to get one: unparsable packet, the transfer module refuses, the follow-up
    (conversion to ERC-20 or memo call) fails after the transfer module has credited the receiver *)
 Theorem C18_ibc_error_points :
